@@ -232,6 +232,11 @@ class MultiStepReplayBuffer(ReplayBuffer):
             assert done_key is not None, "No done/termination key found in transition"
             self.done_key = done_key
 
+        # The oldest transition already ends an episode: its return must not
+        # include rewards of the episode that follows
+        if first_transition[self.done_key].bool().any():
+            return first_transition
+
         # Start with reward from first transition
         n_step_reward: torch.Tensor = first_transition[self.reward_key]
         n_step_reward = n_step_reward.clone()
